@@ -15,7 +15,7 @@
    (lemma `flip_cw_wf_counterexample` below).  The theorem proved here, `flip_cw_wf_partial`, has exactly
    one more precondition: the two apexes are different vertices. *)
 From Coq Require Import ZArith List Bool Arith Lia.
-From SpadeV Require Import Obs.State Obs.Spec Obs.SpecProp Obs.SpecProofs Vmap.Model Dcel.Raw Dcel.WfCore Gen.DcelOps.
+From SpadeV Require Import Obs.State Obs.Spec Obs.SpecProp Obs.SpecProofs Vmap.Model Dcel.Raw Dcel.Chain Dcel.WfCore Gen.DcelOps.
 Import ListNotations.
 
 (* ================================================================================================ *)
@@ -889,93 +889,19 @@ End FlipAbs.
 (* PART 3.  the generated flip_cw                                                                    *)
 (* ================================================================================================ *)
 
-Lemma half_edge_set_next_other : forall d a x b, a <> b -> half_edge (set_next d a x) b = half_edge d b.
-Proof. intros. apply half_edge_upd_other. assumption. Qed.
-Lemma half_edge_set_prev_other : forall d a x b, a <> b -> half_edge (set_prev d a x) b = half_edge d b.
-Proof. intros. apply half_edge_upd_other. assumption. Qed.
-Lemma half_edge_set_face_other : forall d a x b, a <> b -> half_edge (set_face d a x) b = half_edge d b.
-Proof. intros. apply half_edge_upd_other. assumption. Qed.
-Lemma half_edge_set_origin_other : forall d a x b, a <> b -> half_edge (set_origin d a x) b = half_edge d b.
-Proof. intros. apply half_edge_upd_other. assumption. Qed.
-
-Lemma v_out_edge_ext : forall d1 d2 v, d_verts d1 = d_verts d2 -> v_out_edge d1 v = v_out_edge d2 v.
-Proof. intros d1 d2 v H. unfold v_out_edge. rewrite H. reflexivity. Qed.
-Lemma f_adjacent_ext : forall d1 d2 f, d_faces d1 = d_faces d2 -> f_adjacent d1 f = f_adjacent d2 f.
-Proof. intros d1 d2 f H. unfold f_adjacent. rewrite H. reflexivity. Qed.
+(* The state after flip_cw is characterised POINTWISE (record FlipPost).  Nothing below depends on the order of
+   the statements of the generated chain: every read `half_edge d' x`, `v_out_edge d' v`, `f_adjacent d' f`,
+   every table length, is evaluated by the tactics of Dcel/Chain.v, which peel the writes off the chain one at a
+   time with read-after-write lemmas and decide the index (dis)equalities from the distinctness facts of the
+   two triangles (flip_distinct, flip_faces, dw_org_neq) -- whatever the order of the writes. *)
 Lemma hrec_eta : forall h, h = mkh (h_next h) (h_prev h) (h_face h) (h_org h).
 Proof. intros []. reflexivity. Qed.
-
-(* the vertex / face / flag tables after flip_cw: only the two out-edge and the two adjacent-edge writes matter *)
-Lemma flip_cw_verts : forall d k,
-  d_verts (fst (DcelOps.flip_cw d k)) =
-  d_verts (set_out_edge (set_out_edge d (e_origin d (2 * k)) (Some (e_next d (rev (2 * k)))))
-                        (e_origin d (rev (2 * k))) (Some (e_next d (2 * k)))).
-Proof. reflexivity. Qed.
-
-Lemma flip_cw_faces : forall d k,
-  d_faces (fst (DcelOps.flip_cw d k)) =
-  d_faces (set_adjacent_edge (set_adjacent_edge d (e_face d (2 * k)) (Some (2 * k)))
-                             (e_face d (rev (2 * k))) (Some (rev (2 * k)))).
-Proof. reflexivity. Qed.
 
 Lemma flip_cw_flags : forall d k, d_flags (fst (DcelOps.flip_cw d k)) = d_flags d.
 Proof. reflexivity. Qed.
 
 Lemma flip_cw_len_hedges : forall d k, length (d_hedges (fst (DcelOps.flip_cw d k))) = length (d_hedges d).
-Proof. intros d k. unfold DcelOps.flip_cw. cbv zeta. cbn [fst]. autorewrite with dcel_frame. reflexivity. Qed.
-
-Lemma hrec_ext4 : forall h a b c o,
-  h_next h = a -> h_prev h = b -> h_face h = c -> h_org h = o -> h = mkh a b c o.
-Proof. intros [] a b c o. cbn. intros -> -> -> ->. reflexivity. Qed.
-
-(* Reading a field through a chain of writes.  Purely syntactic matching (fast): frame lemmas for the
-   other setters, same/other for the field's own setter, with side conditions by len_simp / lia. *)
-Ltac len_simp :=
-  repeat match goal with
-  | |- context [length (d_hedges (set_next ?d ?a ?x))] => rewrite (len_hedges_set_next d a x)
-  | |- context [length (d_hedges (set_prev ?d ?a ?x))] => rewrite (len_hedges_set_prev d a x)
-  | |- context [length (d_hedges (set_face ?d ?a ?x))] => rewrite (len_hedges_set_face d a x)
-  | |- context [length (d_hedges (set_origin ?d ?a ?x))] => rewrite (len_hedges_set_origin d a x)
-  | |- context [d_hedges (set_out_edge ?d ?a ?x)] => rewrite (hedges_set_out_edge d a x)
-  | |- context [d_hedges (set_adjacent_edge ?d ?a ?x)] => rewrite (hedges_set_adjacent_edge d a x)
-  end.
-Ltac he_side_len := len_simp; assumption.
-Ltac neq_side := solve [assumption | apply not_eq_sym; assumption].
-Ltac he_step :=
-  match goal with
-  | |- context [half_edge (set_out_edge ?d ?v ?o) ?b] => rewrite (half_edge_set_out_edge d v o b)
-  | |- context [half_edge (set_adjacent_edge ?d ?v ?o) ?b] => rewrite (half_edge_set_adjacent_edge d v o b)
-  | |- context [h_next (half_edge (set_prev ?d ?a ?x) ?b)] => rewrite (hnext_set_prev d a x b)
-  | |- context [h_next (half_edge (set_face ?d ?a ?x) ?b)] => rewrite (hnext_set_face d a x b)
-  | |- context [h_next (half_edge (set_origin ?d ?a ?x) ?b)] => rewrite (hnext_set_origin d a x b)
-  | |- context [h_prev (half_edge (set_next ?d ?a ?x) ?b)] => rewrite (hprev_set_next d a x b)
-  | |- context [h_prev (half_edge (set_face ?d ?a ?x) ?b)] => rewrite (hprev_set_face d a x b)
-  | |- context [h_prev (half_edge (set_origin ?d ?a ?x) ?b)] => rewrite (hprev_set_origin d a x b)
-  | |- context [h_face (half_edge (set_next ?d ?a ?x) ?b)] => rewrite (hface_set_next d a x b)
-  | |- context [h_face (half_edge (set_prev ?d ?a ?x) ?b)] => rewrite (hface_set_prev d a x b)
-  | |- context [h_face (half_edge (set_origin ?d ?a ?x) ?b)] => rewrite (hface_set_origin d a x b)
-  | |- context [h_org (half_edge (set_next ?d ?a ?x) ?b)] => rewrite (horg_set_next d a x b)
-  | |- context [h_org (half_edge (set_prev ?d ?a ?x) ?b)] => rewrite (horg_set_prev d a x b)
-  | |- context [h_org (half_edge (set_face ?d ?a ?x) ?b)] => rewrite (horg_set_face d a x b)
-  | |- context [h_next (half_edge (set_next ?d ?a ?x) ?b)] =>
-      first [ constr_eq a b; rewrite (hnext_set_next_same d a x) by he_side_len
-            | rewrite (hnext_set_next_other d a x b) by neq_side ]
-  | |- context [h_prev (half_edge (set_prev ?d ?a ?x) ?b)] =>
-      first [ constr_eq a b; rewrite (hprev_set_prev_same d a x) by he_side_len
-            | rewrite (hprev_set_prev_other d a x b) by neq_side ]
-  | |- context [h_face (half_edge (set_face ?d ?a ?x) ?b)] =>
-      first [ constr_eq a b; rewrite (hface_set_face_same d a x) by he_side_len
-            | rewrite (hface_set_face_other d a x b) by neq_side ]
-  | |- context [h_org (half_edge (set_origin ?d ?a ?x) ?b)] =>
-      first [ constr_eq a b; rewrite (horg_set_origin_same d a x) by he_side_len
-            | rewrite (horg_set_origin_other d a x b) by neq_side ]
-  | |- context [half_edge (set_next ?d ?a ?x) ?b] => rewrite (half_edge_set_next_other d a x b) by neq_side
-  | |- context [half_edge (set_prev ?d ?a ?x) ?b] => rewrite (half_edge_set_prev_other d a x b) by neq_side
-  | |- context [half_edge (set_face ?d ?a ?x) ?b] => rewrite (half_edge_set_face_other d a x b) by neq_side
-  | |- context [half_edge (set_origin ?d ?a ?x) ?b] => rewrite (half_edge_set_origin_other d a x b) by neq_side
-  end.
-Ltac he_simp := repeat he_step.
-Ltac he_fin := first [reflexivity | assumption | symmetry; assumption].
+Proof. intros d k. unfold DcelOps.flip_cw. cbv zeta. cbn [fst]. ch_len. reflexivity. Qed.
 
 Lemma flip_cw_post : forall d k, DW d -> k < Raw.num_undirected_edges d ->
   inner d (2 * k) -> inner d (rev (2 * k)) ->
@@ -994,10 +920,6 @@ Proof.
   pose proof (dw_org_neq d W _ He) as NO.
   pose proof (dw_face_next d W _ He) as FNe. pose proof (dw_face_next d W _ Ht) as FNt.
   remember (fst (DcelOps.flip_cw d k)) as d' eqn:Hd.
-  assert (HV : d_verts d' = _) by (rewrite Hd; apply flip_cw_verts).
-  assert (HF : d_faces d' = _) by (rewrite Hd; apply flip_cw_faces).
-  assert (HG : d_flags d' = d_flags d) by (rewrite Hd; apply flip_cw_flags).
-  assert (HL : length (d_hedges d') = length (d_hedges d)) by (rewrite Hd; apply flip_cw_len_hedges).
   unfold DcelOps.flip_cw in Hd; cbv zeta in Hd; cbn [fst] in Hd; unfold e_rev, normalized in Hd.
   fold (e_next d (2 * k)) (e_prev d (2 * k)) (e_face d (2 * k)) (e_origin d (2 * k)) in Hd.
   fold (e_next d (rev (2 * k))) (e_prev d (rev (2 * k))) (e_face d (rev (2 * k))) (e_origin d (rev (2 * k))) in Hd.
@@ -1009,37 +931,26 @@ Proof.
   remember (e_origin d e) as oe eqn:Eoe. remember (e_origin d tw) as ot eqn:Eot.
   constructor.
   all: rewrite <- ?Etw; rewrite <- ?Een, <- ?Eep, <- ?Etn, <- ?Etp; rewrite <- ?Efe, <- ?Eft, <- ?Eoe, <- ?Eot.
-  - exact HG.
-  - exact HL.
-  - rewrite HV. rewrite !len_verts_set_out_edge. reflexivity.
-  - rewrite HF. rewrite !len_faces_set_adjacent_edge. reflexivity.
-  - rewrite Hd; apply hrec_ext4; he_simp; he_fin.
-  - rewrite Hd; apply hrec_ext4; he_simp; he_fin.
-  - rewrite Hd; apply hrec_ext4; he_simp; he_fin.
-  - rewrite Hd; apply hrec_ext4; he_simp; he_fin.
-  - rewrite Hd; apply hrec_ext4; he_simp; he_fin.
-  - rewrite Hd; apply hrec_ext4; he_simp; he_fin.
+  - rewrite Hd. reflexivity.
+  - rewrite Hd. ch_len. reflexivity.
+  - rewrite Hd. ch_len. reflexivity.
+  - rewrite Hd. ch_len. reflexivity.
+  - rewrite Hd; ch_fields; ch_read; ch_fin.
+  - rewrite Hd; ch_fields; ch_read; ch_fin.
+  - rewrite Hd; ch_fields; ch_read; ch_fin.
+  - rewrite Hd; ch_fields; ch_read; ch_fin.
+  - rewrite Hd; ch_fields; ch_read; ch_fin.
+  - rewrite Hd; ch_fields; ch_read; ch_fin.
   - intros x (U1 & U2 & U3 & U4 & U5 & U6).
     rewrite <- ?Etw in *. rewrite <- ?Een, <- ?Eep, <- ?Etn, <- ?Etp in *.
-    rewrite Hd. he_simp. reflexivity.
-  - intros v. cbv zeta. rewrite HV.
-    destruct (vrec_set_out_edge_data (set_out_edge d oe (Some tn)) ot v (Some en)) as (X1 & X2 & X3).
-    destruct (vrec_set_out_edge_data d oe v (Some tn)) as (Y1 & Y2 & Y3).
-    rewrite X1, X2, X3. auto.
-  - rewrite (v_out_edge_ext _ _ _ HV).
-    rewrite vout_set_out_edge_other by (intro E; apply NO; congruence).
-    apply vout_set_out_edge_same. exact LOe.
-  - rewrite (v_out_edge_ext _ _ _ HV).
-    apply vout_set_out_edge_same. rewrite len_verts_set_out_edge. exact LOt.
-  - intros v N1 N2. rewrite (v_out_edge_ext _ _ _ HV).
-    rewrite !vout_set_out_edge_other by congruence. reflexivity.
-  - rewrite (f_adjacent_ext _ _ _ HF).
-    rewrite fadj_set_adjacent_edge_other by congruence.
-    apply fadj_set_adjacent_edge_same. exact LFe.
-  - rewrite (f_adjacent_ext _ _ _ HF).
-    apply fadj_set_adjacent_edge_same. rewrite len_faces_set_adjacent_edge. exact LFt.
-  - intros f N1 N2. rewrite (f_adjacent_ext _ _ _ HF).
-    rewrite !fadj_set_adjacent_edge_other by congruence. reflexivity.
+    rewrite Hd. ch_read. reflexivity.
+  - intros v. apply ch_vxyd_inv. rewrite Hd. ch_read. reflexivity.
+  - rewrite Hd. ch_read. reflexivity.
+  - rewrite Hd. ch_read. reflexivity.
+  - intros v N1 N2. rewrite Hd. ch_read. reflexivity.
+  - rewrite Hd. ch_read. reflexivity.
+  - rewrite Hd. ch_read. reflexivity.
+  - intros f N1 N2. rewrite Hd. ch_read. reflexivity.
 Qed.
 
 (* ------------------------------------------------------------------------------------------------ *)
